@@ -134,6 +134,9 @@ A_NAMES = ["Foo", "foo", "FOO", "Bar", "bar", "Count", "count", "x", "X", "y", "
 A_TYPES = ["int4", "Int4", "cstring", "CString", "boolean", "aThing", "aOther", "tRef", "Num8", "text"]
 
 
+A_TP = "tp_"           # reserved prefix: names of parameters of procedure / function TYPES
+
+
 def a_cps(t):
     return ".".join(str(ord(c)) for c in t)
 
@@ -165,21 +168,24 @@ class AGen:
         if k < 0.75:
             return "listOf " + r.choice(["aThing", "[O] aOther"])
         if k < 0.9 and depth < 2:
-            return "procedure (%s)" % self.params(depth + 1) if r.random() < 0.8 else "procedure"
+            return "procedure (%s)" % self.params(depth + 1, of_type=True) if r.random() < 0.8 else "procedure"
         if depth < 2:
-            return "function (%s) return %s" % (self.params(depth + 1), r.choice(A_TYPES))
+            return "function (%s) return %s" % (self.params(depth + 1, of_type=True), r.choice(A_TYPES))
         return r.choice(A_TYPES)
 
-    def params(self, depth=0):
+    def params(self, depth=0, of_type=False):
+        """of_type: the parameters of a procedure / function TYPE; their names carry the reserved prefix tp_ (no
+           other name of a generated or fixed document does), see annot_oracle"""
         r = self.r
         ps = []
         for _ in range(r.randint(0, 3)):
             k = r.random()
             mod = r.choice(["", "", "", "inOut ", "var ", "const "])
+            nm = (A_TP + self.name()) if of_type else self.name()
             if k < 0.12:
-                ps.append(mod + self.name())                          # no type
+                ps.append(mod + nm)                                   # no type
             else:
-                ps.append("%s%s : %s" % (mod, self.name(), self.ty(depth)))
+                ps.append("%s%s : %s" % (mod, nm, self.ty(depth)))
         return ", ".join(ps)
 
     def stmts(self, depth, out, ind):
@@ -313,12 +319,15 @@ A_FIXED = [
     "",
     "class aFoo",
     "module aMod\nconst c = 1\nproc P\nendproc\n",
-    "class aFoo (aFoo)\nuses aLib, aLib2\nconst cA = 1\ntype tCb : procedure(x : int4)\nfa : int4\nproc Run(p : int4)\n var l : int4\n if p > 0\n  var inner : cstring\n endif\nendproc\nfb : int4\nuses zz\nfunc G#Ev(cb : procedure(y : int4)) return int4 forward\nconst fa = 2\n",
+    "class aFoo (aFoo)\nuses aLib, aLib2\nconst cA = 1\ntype tCb : procedure(tp_x : int4)\nfa : int4\nproc Run(p : int4)\n var l : int4\n if p > 0\n  var inner : cstring\n endif\nendproc\nfb : int4\nuses zz\nfunc G#Ev(cb : procedure(tp_y : int4)) return int4 forward\nconst fa = 2\n",
     "class aFoo\nFa : int4\nfa : cstring\nFA : int4\nproc Run(Fa : int4, fa : int4)\n var FA : int4\n var Fa : int4\nendproc\nproc RUN\nendproc\n",
     "proc P(a, b : int4)\n var self : int4\nendproc\nclass aLate\nmodule aLater\n",
     "class aFoo\nproc A#B(x : int4)\nendproc\nfunc A#B return int4\nendfunc\nproc A # B\nendproc\n",
     "class aFoo\nproc P\n var a : int4\n",
-    "class aFoo\nf : procedure(a : procedure(b : int4), c : int4)\nproc P(cb : function(q : int4) return int4)\n var v : procedure(w : int4)\nendproc\n",
+    "class aFoo\nf : procedure(tp_a : procedure(tp_b : int4), tp_c : int4)\nproc P(cb : function(tp_q : int4) return int4)\n var v : procedure(tp_w : int4)\nendproc\n",
+    # witness of the defect repaired by c14b1c2 (C10_old_type_param_leak_refuted / C10_fixed_type_param_leak)
+    "class aFoo\ntype tCb : procedure(tp_xparam : int4)\nproc Run(p : int4)\n var cb : procedure(tp_y : int4)\n tp_xparam = 1\nendproc\n",
+    "module aMod\ntype tFn : function(tp_a : int4, inOut tp_b : cstring) return int4\nfCb : procedure(tp_c : int4)\nfunc F(q : function(tp_d : int4) return int4) return int4\nendfunc\n",
 ]
 
 
@@ -359,6 +368,7 @@ def annot_oracle(case, obs):
     if tabs is None:
         return "unreadable observation"
     lines = a_text(case).split("\n")
+    tp_marked = case.endswith("@tp")
     for mode in ("F", "D"):
         for ti, (cls, syms, uses) in enumerate(tabs[mode]):
             prev = None
@@ -377,6 +387,10 @@ def annot_oracle(case, obs):
                         return "%s: text at selection range %r is %r" % (where, sel, got)
                 if not ((rg[0], rg[1]) <= (sl, sc) and (el, ec) <= (rg[2], rg[3])):
                     return "%s: selection %r outside range %r" % (where, sel, rg)
+                # the parameters of a procedure / function TYPE declare nothing (repair c14b1c2): in the documents
+                # marked @tp the names with the reserved prefix occur as such parameters only
+                if tp_marked and nm.lower().startswith(A_TP):
+                    return "%s: the parameter of a procedure/function TYPE is a symbol of a table" % where
                 prev = nm
     return None
 
@@ -394,7 +408,7 @@ def annot_shrinker(case):
     t = a_text(case)
     lines = t.split("\n")
     for i in range(len(lines)):
-        yield a_cps("\n".join(lines[:i] + lines[i + 1:]))
+        yield a_cps("\n".join(lines[:i] + lines[i + 1:])) + ("@tp" if case.endswith("@tp") else "")
 
 
 def annot_cases(ctx):
@@ -402,8 +416,12 @@ def annot_cases(ctx):
     hist = {}
     texts = []
 
+    marked = set()
+
     def add(kind, t):
         # the case line is code points separated by '.'; an empty document is the empty line
+        if kind in ("fixed", "scoping_shaped_program"):
+            marked.add(len(texts))          # un-mutated: tp_ names are parameters of procedure/function types only
         texts.append(t)
         hist[kind] = hist.get(kind, 0) + 1
 
@@ -435,7 +453,7 @@ def annot_cases(ctx):
         if rng.random() < 0.3:
             t = a_mutate(rng, t)
         add("mutated", t)
-    return [a_cps(t) for t in texts], hist
+    return [a_cps(t) + ("@tp" if i in marked else "") for i, t in enumerate(texts)], hist
 
 
 def annot_stage(ctx):
@@ -443,6 +461,7 @@ def annot_stage(ctx):
     cov = diff.differential(ctx, "annot", cases, split=lambda out: tuple(out.split("#", 1)), oracle=annot_oracle,
                             shrinker=annot_shrinker, nontrivial=annot_nontrivial, describe=annot_describe)
     cov["input_histogram"] = hist
+    cov["documents_with_type_parameters_checked"] = sum(1 for c in cases if c.endswith("@tp") and A_TP in a_text(c))
     # how many of the documents have the regular shape C10_tables_from_tree is stated for (AnnotProofs.regularb)
     dumps = [o.split("#", 1)[0] for o in core.run_lines(diff.Engines.harness(), "annot", cases)]
     flags = core.run_lines(diff.Engines.model(), "annotreg", dumps)
